@@ -530,10 +530,15 @@ func (obj *Flavor) LoadForm() slip.Object {
 		} else {
 			var iiv slip.List
 			iiv = append(iiv, slip.Symbol(":inittable-instance-variables"))
+			inits := make([]string, 0, len(obj.initable))
 			for k, v := range obj.initable {
 				if v {
-					iiv = append(iiv, slip.Symbol(k[1:]))
+					inits = append(inits, k[1:])
 				}
+			}
+			sort.Strings(inits)
+			for _, k := range inits {
+				iiv = append(iiv, slip.Symbol(k))
 			}
 			df = append(df, iiv)
 		}
